@@ -100,9 +100,10 @@ func (i *Int) Init64(v int64, m *compatiblemod.Mod) *Int {
 	i.M = m
 	i.BO = kyber.BigEndian
 	if v < 0 {
-		i.V = *compatible.FromNat(i.M.Nat())
-		negated := compatible.NewInt(-v)
-		i.V = *compatible.NewInt(0).Sub(&i.V, negated, i.M)
+		// |v| as uint64 (-v overflows for math.MinInt64), reduced, then negated mod m
+		mag := compatible.NewInt(0).Mod(compatible.NewUint(uint64(-(v+1))+1), m)
+		zero := compatible.NewInt(0).Mod(compatible.NewInt(0), m)
+		i.V = *compatible.NewInt(0).Sub(zero, mag, m)
 	} else {
 		i.V = *compatible.NewInt(0).SetUint(uint(v))
 		i.V = *compatible.NewInt(0).Mod(&i.V, m)
@@ -189,10 +190,9 @@ func (i *Int) One() kyber.Scalar {
 // SetInt64 sets the Int to an arbitrary 64-bit "small integer" value.
 // The modulus must already be initialized.
 func (i *Int) SetInt64(v int64) kyber.Scalar {
-	if v < 0 {
-		panic("negative value")
-	}
-	i.V = *compatible.NewInt(0).Mod(compatible.NewInt(v), i.M)
+	bo := i.BO
+	i.Init64(v, i.M)
+	i.BO = bo
 
 	return i
 }
